@@ -92,8 +92,21 @@ def kind_rows(m, full):
     return rows
 
 
-def parse_tree_record(rng, case, cell, note, prune=False):
+def with_extra_refs(cell, tag=[0]):
+    """the same augmented tree whose extras each own a reference (Y = bits + ^Cell, like a CurrencyCollection with other currencies):
+    every node gets one more reference after its children"""
+    tag[0] += 1
+    b = Builder().store_bits(cell.bits)
+    for r in cell.refs:
+        b.store_ref(with_extra_refs(r) if r.type_ == -1 else r)
+    b.store_ref(Builder().store_uint(tag[0] % 251, 8).end_cell())
+    return b.end_cell()
+
+
+def parse_tree_record(rng, case, cell, note, prune=False, extra_refs=False):
     w, aug, xw = case['w'], case['aug'], case['xw'] if case['aug'] else 0
+    if extra_refs:
+        cell = with_extra_refs(cell)
     if prune:
         cell = prune_random(rng, cell)
         if cell is None:
@@ -126,7 +139,7 @@ def parse_tree_record(rng, case, cell, note, prune=False):
         if aug:
             f = rng.choice(['parse_hashmap_aug', 'load_hashmap_aug'])
             xd = lambda s: s.load_bits(len(s.bits))
-            yd = lambda s: s.load_bits(xw)
+            yd = (lambda s: (s.load_bits(xw), s.load_ref())[0]) if extra_refs else (lambda s: s.load_bits(xw))
             if f == 'parse_hashmap_aug':
                 d, extras = parse_hashmap_aug(start(), w, xd, yd)
             else:
@@ -203,6 +216,11 @@ def generate(tier, seed, ctx):
             r = parse_tree_record(rng, case, cell, name, prune=True)
             if r:
                 out.append(r)
+        if case['aug'] and rng.random() < (0.3 if q else 0.8):
+            for pr in (False, True):
+                r = parse_tree_record(rng, case, cell, name + '_extras_with_refs', prune=pr, extra_refs=True)
+                if r:
+                    out.append(r)
     # HashmapAugE: the dictionary root hangs off a HOLDER cell (ahme_root$1 root:^... extra:Y).  When a proof prunes the holder itself
     # nothing at all is known about the dictionary: whatever the entry point hands back, it is not "a dictionary" (let alone an empty one)
     augs = [c for _, c in cases if c['aug']]
